@@ -1,7 +1,8 @@
 """C20: TeX names unique (int2name), colour conversions agree."""
 ID = "C20"
 MODNAME = "c20"
-RULE = ("int2name: indices 0..N (all below 20000 quick / 10^6 thorough, in blocks) plus random large ones; "
+RULE = ("documents: 150/1500 small timelines (list colours, all layering algorithms incl. none, unsorted data) exported by both "
+        "back-ends: TeX colour and text macro names distinct, every dot has the same colour in the SVG and in TeX; int2name: indices 0..N (all below 20000 quick / 10^6 thorough, in blocks) plus random large ones; "
         "hex: every 3-digit code over the 22 hex characters (with and without '#'), random and boundary 6-digit codes. "
         "A case is one index block or one colour code; non-trivial = a name of >=2 letters / a code containing a letter digit or '#'; "
         "distinct by input.")
@@ -10,8 +11,34 @@ EXPLANATION = ("Theorems are about coq/Text/Utils.v for ALL indices and ALL vali
 HEX = "0123456789abcdefABCDEF"
 
 
+def _impl_doc(py):
+    """Names and colours as they reach the two documents: every label's TeX macro names are
+    distinct, and a label's dot has the same colour in the SVG (rgb()) and in TeX (HTML code)."""
+    import re
+    from labella.scale import LinearScale
+    from labella.timeline import TimelineSVG, TimelineTex
+    def build():
+        data = [{"time": t, "width": w, "text": "L%d" % i} for i, (t, w) in enumerate(py["data"])]
+        opts = {"scale": LinearScale(), "direction": py["dir"], "labella": dict(py["labella"])}
+        for role, col in py["colors"].items():
+            opts[role] = list(col) if isinstance(col, list) else col
+        return data, opts
+    svg = TimelineSVG(*build()).export().decode("utf-8")
+    tex = TimelineTex(*build()).export()
+    names = re.findall(r"\\definecolor\{dotColor([A-Z]+)\}\{HTML\}\{([0-9A-Fa-f]+)\}", tex)
+    tex_col = {n: c for n, c in names}
+    tex_dots = re.findall(r"fill=dotColor([A-Z]+)\] at \(([-0-9.eE+]+), ([-0-9.eE+]+)\)", tex)
+    svg_dots = re.findall(r'<circle [^>]*style="fill: rgb\((\d+), (\d+), (\d+)\);"[^>]*?c[xy]="([-0-9.eE+]+)"', svg)
+    text_names = re.findall(r"\\def\\text([A-Z]+)\{", tex)
+    return {"names": [n for n, _ in names], "text_names": text_names,
+            "tex_dots": [[round(float(x) + float(y), 4), tex_col.get(n, "?")] for n, x, y in tex_dots],
+            "svg_dots": [[round(float(c), 4), [int(r), int(g), int(b)]] for r, g, b, c in svg_dots]}
+
+
 def impl(py):
     from labella import utils
+    if py["k"] == "doc":
+        return _impl_doc(py)
     if py["k"] == "names":
         return [utils.int2name(i) for i in range(py["lo"], py["hi"])]
     if py["k"] == "name1":
@@ -34,6 +61,8 @@ def _hex_case(code):
 
 def rebuild(c):
     py = c["py"]
+    if py["k"] == "doc":
+        return {"kind": "doc", "py": py, "model": []}
     if py["k"] == "names":
         return _names_case(py["lo"], py["hi"])
     if py["k"] == "name1":
@@ -41,7 +70,21 @@ def rebuild(c):
     return _hex_case(py["code"])
 
 
+def _doc_case(rng):
+    n = rng.randrange(2, 30)
+    data = [[rng.randrange(0, 400) / 4.0, rng.choice([20, 35, 50])] for _ in range(n)]
+    pal = ["#" * rng.randrange(2) + "".join(rng.choice(HEX) for _ in range(rng.choice([3, 6]))) for _ in range(rng.randrange(2, 7))]
+    colors = {"dotColor": pal}
+    if rng.random() < 0.5:
+        colors["linkColor"] = list(reversed(pal))
+    lab = rng.choice([{"algorithm": "none"}, {"algorithm": "none"}, {}, {"maxPos": 200}, {"algorithm": "simple", "maxPos": 150}])
+    return {"kind": "doc", "py": {"k": "doc", "data": data, "colors": colors, "labella": lab,
+                                  "dir": rng.choice(["up", "down", "left", "right"])}, "model": []}
+
+
 def gen(rng, tier):
+    for _ in range(150 if tier == "quick" else 1500):
+        yield _doc_case(rng)
     top = 20000 if tier == "quick" else 1000000
     blk = 500 if tier == "quick" else 5000
     for lo in range(0, top, blk):
@@ -77,6 +120,8 @@ def compare(case, io, mo):
     if isinstance(io, dict) and "exc" in io:
         return "implementation raised %s" % io["exc"]
     py = case["py"]
+    if py["k"] == "doc":
+        return None
     if py["k"] in ("names", "name1"):
         for name, m in zip(io, mo):
             if m is None or m[0] != 1:
@@ -112,6 +157,21 @@ def oracle(case, io):
     if isinstance(io, dict) and "exc" in io:
         return "raised %s" % io["exc"]
     py = case["py"]
+    if py["k"] == "doc":
+        n = len(py["data"])
+        if len(io["names"]) != n or len(set(io["names"])) != n:
+            return "the %d labels do not have %d distinct TeX colour names: %r" % (n, n, io["names"][:8])
+        if len(set(io["text_names"])) != len(io["text_names"]):
+            return "two labels share a TeX text macro: %r" % (io["text_names"][:8],)
+        if len(io["svg_dots"]) != n or len(io["tex_dots"]) != n:
+            return "dots: %d in the SVG, %d in TeX, %d labels" % (len(io["svg_dots"]), len(io["tex_dots"]), n)
+        a = sorted((p, tuple(c)) for p, c in io["svg_dots"])
+        b = sorted((p, (int(h[0:2], 16), int(h[2:4], 16), int(h[4:6], 16))) for p, h in io["tex_dots"])
+        if a != b:
+            bad = next((x, y) for x, y in zip(a, b) if x != y)
+            return ("the dot at %s is rgb%s in the SVG but its TeX colour denotes %s: the two documents give a label "
+                    "different colours" % (bad[0][0], bad[0][1], bad[1][1]))
+        return None
     if py["k"] in ("names", "name1"):
         idx = list(range(py["lo"], py["hi"])) if py["k"] == "names" else [int(py["i"])]
         prev = None
@@ -141,6 +201,8 @@ def oracle(case, io):
 
 def nontrivial(case, io):
     py = case["py"]
+    if py["k"] == "doc":
+        return len(py["data"]) > 2
     if py["k"] == "names":
         return py["hi"] > 26
     if py["k"] == "name1":
@@ -157,6 +219,14 @@ def search(rng, tier, mism_cases):
 
 def shrink_candidates(case):
     py = case["py"]
+    if py["k"] == "doc":
+        d = py["data"]
+        for i in range(len(d)):
+            if len(d) > 2:
+                q = dict(py)
+                q["data"] = d[:i] + d[i + 1:]
+                yield {"kind": "doc", "py": q, "model": []}
+        return
     if py["k"] == "names" and py["hi"] - py["lo"] > 1:
         mid = (py["lo"] + py["hi"]) // 2
         yield _names_case(py["lo"], mid)
